@@ -327,7 +327,8 @@ class Exec:
                 if len(p.blocks) > 4000:
                     raise Broken("irx(unroll): path too long in %s (loop bound not constant?)" % f.name)
             follow = False
-            if self.auto and b in self.heads and pred != "fresh":
+            if self.auto and b in self.heads and pred != "fresh" and b != origin:
+                # (a generic iteration that started at this head ends when it comes back to it, decided or not)
                 follow = self._header_decided(p, b, pred)
                 if len(p.blocks) > 6000:
                     raise Broken("irx(auto): path too long in %s" % f.name)
